@@ -109,6 +109,7 @@ type Scenario struct {
 	RefreshLoop bool // run the real topology refresh goroutine; synchronised with a barrier at every quiescent point
 	InputEnum   bool // the scenario itself is one point of an input enumeration (counts as a distinct non-trivial case)
 	ReuseFds    bool
+	NoVariant   bool // never run this scenario as a configuration variant (multi-megabyte inputs: debug lines walk every byte)
 	DebugLog    bool // log level "debug": Debug lines are formatted and Debug closures evaluated
 	SlowlogMs   int  // > 0: slow-log threshold in milliseconds (RedisSlowlogSlowerThan)
 	AfterBoot   func(w *World)
